@@ -425,7 +425,22 @@ impl ExpandedField<'_> {
         let is_required = self
             .field_type_qualifiers
             .contains(&GraphqlTypeQualifier::Required);
-        let id_deserialize_with = if is_id && is_required {
+        let is_list = self
+            .field_type_qualifiers
+            .contains(&GraphqlTypeQualifier::List);
+        let is_nullable = self
+            .field_type_qualifiers
+            .first()
+            .map(|qualifier| !qualifier.is_required())
+            .unwrap_or(true);
+        let id_deserialize_with = if is_id && is_list && is_nullable {
+            // The two helpers below are for `String` and `Option<String>` only.
+            Some(
+                quote!(#[serde(default, deserialize_with = "graphql_client::serde_with::deserialize_id_list")]),
+            )
+        } else if is_id && is_list {
+            Some(quote!(#[serde(deserialize_with = "graphql_client::serde_with::deserialize_id_list")]))
+        } else if is_id && is_required {
             Some(quote!(#[serde(deserialize_with = "graphql_client::serde_with::deserialize_id")]))
         } else if is_id {
             // `deserialize_with` switches off serde's implicit "a missing `Option` is `None`":
